@@ -44,6 +44,28 @@ UPPER_WORDS = ["DEFINED", "IF", "ELSE", "ELIF", "ENDIF", "IFDEF", "IFNDEF", "DEF
                "RETURN", "STRUCT", "SIZEOF", "TYPEDEF", "STATIC", "CONST", "GOTO", "DO", "FOR"]
 
 
+_TOOL_WORDS = None
+
+
+def tool_words():
+    """upper-case words of the tool's own vocabulary: the names it gives to token types (an identifier may be spelled
+    `TAB`, `SPACE`, `COMMA`, `NEWLINE`, `SEMI_COLON`, `ASSIGN`, `IDENTIFIER` ...)"""
+    global _TOOL_WORDS
+    if _TOOL_WORDS is None:
+        from norminette.lexer import dictionary as D
+        ws = {"IDENTIFIER", "CONSTANT", "STRING", "CHAR_CONST", "COMMENT", "MULT_COMMENT", "SPACE", "TAB", "NEWLINE", "ESCAPED_NEWLINE"}
+        for nm in dir(D):
+            v = getattr(D, nm)
+            if isinstance(v, dict):
+                ws.update(str(x) for x in v.values() if isinstance(x, str) and x.isupper())
+        _TOOL_WORDS = sorted(ws)
+    return _TOOL_WORDS
+
+
+# a keyword as the beginning of a longer ordinary word
+KEYWORD_STEMS = ["if", "do", "int", "for", "else", "case", "char", "enum", "goto", "long", "void", "auto", "elif", "endif", "ifdef", "define", "include", "return", "sizeof"]
+
+
 def name_class_rename(name, rng):
     """a name of the same length and naming class: prefix kept, each character replaced by one
     of its own class (lower / upper / digit), underscores kept"""
@@ -86,10 +108,18 @@ def name_class_rename(name, rng):
     # keyword or a directive word in capitals: still ordinary names of their class
     if lower_snake and not prefix and len(rest) >= 4 and rng.random() < 0.12:
         new = new[:-2] + rng.choice(["_t", "_s", "_e", "_u", "_p"])
-    if rest == rest.upper() and any(c.isalpha() for c in rest) and not prefix and rng.random() < 0.15:
-        kws = [k for k in UPPER_WORDS if len(k) == len(rest)]
+    if rest == rest.upper() and any(c.isalpha() for c in rest) and not prefix and rng.random() < 0.3:
+        kws = [k for k in UPPER_WORDS + tool_words() if len(k) == len(rest)]
         if kws:
             new = rng.choice(kws)
+    # a lower-case name that BEGINS with a keyword or a directive word (`ifname`, `format`, `dot`, `intx`)
+    if lower_snake and not prefix and rest[:1].isalpha() and rng.random() < 0.2:
+        st = [k for k in KEYWORD_STEMS if len(k) < len(rest)]
+        if st:
+            k = rng.choice(st)
+            tail = "".join(rng.choice("abcdefghijklmnopqrstuvwxyz") for _ in range(len(rest) - len(k)))
+            if k + tail not in KEYWORD_WORDS:
+                new = k + tail
     # an upper-case name keeps at least one letter (`_056` is not upper-case any more)
     if rest == rest.upper() and any(c.isalpha() for c in rest) and not any(c.isalpha() for c in "".join(out)):
         return name
@@ -193,6 +223,14 @@ def swap_one(src, rng, header_lines=0):
         return cands
     a, b, extra, what = rng.choice(cands)
     alphabet = CODE + extra
+    # the text of ANOTHER comment or literal of the same file that has the same width (the two then read alike)
+    if rng.random() < 0.3:
+        same = [src[a2:b2] for (a2, b2, e2, w2) in cands if (a2, b2) != (a, b) and b2 - a2 == b - a and src[a2:b2] != src[a:b]
+                and "*/" not in src[a2:b2] and "\\" not in src[a2:b2] and not (what == "string" and '"' in src[a2:b2])
+                and not (what in ("char", "char-multi") and "'" in src[a2:b2]) and not src[a2:b2].endswith(("*", "?"))]
+        if same:
+            new = rng.choice(same)
+            return src[:a] + new + src[b:], {"what": what, "old": src[a:b], "new": new, "line": line_of_offset(src, a)}
     while True:
         new = "".join(rng.choice(alphabet) for _ in range(b - a))
         # boundary shapes that matter to a lexer looking for the closing delimiter
